@@ -251,20 +251,23 @@ class _Quantifier(_UnaryOperator):
 
         if isinstance(operand, _Quantifier):
             result = 0
+            neuron = self._create_neuron(arity=len(operand.neurons))
+            self.func_inv = neuron.func_inv
+            ib = torch.vstack([n.get_data() for n in operand.neurons])
+            ib = ib.permute([1, 0])[None, :, :]
+            bounds = self.func_inv(self.get_data()[None, :], ib)
+            bounds = bounds[0].permute([1, 0])
             for i, operand_neuron in enumerate(operand.neurons):
-                ib = operand_neuron.get_data().permute([1, 0])[None, :, :]
-                bounds = self.func_inv(self.get_data()[None, :], ib)
-                bounds = bounds[0].permute([1, 0])
-                result += operand_neuron.aggregate_bounds([0], bounds[None, 0])
+                result += operand_neuron.aggregate_bounds([0], bounds[None, i])
 
             return result
 
         groundings = list(operand.grounding_table.values())
-        bounds = self.func_inv(
-            self.get_data().repeat(len(operand.get_data()), 1),
-            operand.get_data()[:, :, None],
-        )
-        return operand.neuron.aggregate_bounds(groundings, bounds[..., 0])
+        neuron = self._create_neuron(arity=len(groundings))
+        self.func_inv = neuron.func_inv
+        input_bounds = operand.get_data()[groundings].permute([1, 0])[None, :, :]
+        bounds = self.func_inv(self.get_data().reshape(-1, 2), input_bounds)
+        return operand.neuron.aggregate_bounds(groundings, bounds[0].permute([1, 0]))
 
     def _propagate_groundings(self):
         if len(self._new_groundings):
